@@ -65,6 +65,7 @@ def run(F, R, tier):
                 "dimension (dimensionless; log_scale: GeV)", 55)
     check_units(F, R, "U", FILES, RESULT_DIM, LOOPFN)
     R.guard(_pole_slots, F, R)
+    R.guard(_tan_alpha, F, R)
     # uncertainty floor (shared with C18-U2): the constant floor is what the 2-loop uncertainty decays to
     from .domains import lower_bound
     R.rule("F", "two-loop uncertainty = constant floor 2.3e-10 + terms proportional to |2L(a)| contributions", 1)
@@ -140,3 +141,113 @@ def _pole_slots(F, R):
                 % (f["name"].split("::")[-1], fld, "copy_susy_masses_to_pole fills only while it is zero" if fld in stale
                    else "no function of MSSMNoFV_onshell.cpp assigns"), key="W|" + fld)
     R.analysed["pole_slots"] = {"fresh": sorted(fresh), "fill_if_empty": sorted(stale)}
+
+
+def _tan_alpha(F, R):
+    """TA: tan(alpha) of the 2L(a) couplings is the negative root of the tree-level relation
+    tan(2 alpha) = tan(2 beta) (MA^2 + MZ^2)/(MA^2 - MZ^2).  Every value the function can return satisfies
+    (t + 1/T)^2 = 1/T^2 + 1 identically (sqrt(X)^2 -> X), or -- for a branch selected by `c*a < b` with a numeric c > 1,
+    i.e. a shortcut for a/b -> 0 -- in the limit a -> 0.  A shortcut that returns another limit makes the Higgs
+    couplings of the heavy-MA regime wrong, and with them the decoupling behaviour of 2L(a) and of the uncertainty."""
+    from .rules_c01 import hoist_ites, leaves
+    from .poly import Poly, Rat, to_rat, NotPolynomial
+    R.rule("TA", "tan_alpha returns, on every path, the negative root of tan(2 alpha) = tan(2 beta) (MA^2 + MZ^2)/(MA^2 - MZ^2): "
+                 "polynomial identity after sqrt(X)^2 -> X; a branch selected by a large-ratio test must satisfy it in that limit", 1)
+    f = F.fn("gm2calc::tan_alpha")
+    E = Evaluator(F, inline=lambda n, g: g.get("file") == f["file"] and g is not f and not g.get("externC"))
+    v, fr = E.function_value(f)
+
+    def unsqr(t):
+        """sqr(x) -> x*x, so that the polynomial domain sees through the helper"""
+        if not isinstance(t, tuple):
+            return t
+        if t and t[0] == "call" and str(t[1]).split("::")[-1] == "sqr" and len(t[2]) == 1:
+            x = unsqr(t[2][0])
+            return ("*", x, x)
+        return tuple(unsqr(x) for x in t)
+    v = unsqr(v)
+
+    def find_atom(stem):
+        for x in subterms(v):
+            if isinstance(x, tuple) and x and x[0] == "call" and str(x[1]).split("::")[-1] == stem:
+                return x
+        return None
+    tb, ma, mz = find_atom("get_TB"), find_atom("get_MA0"), find_atom("get_MZ")
+    if tb is None or ma is None or mz is None:
+        R.broken("TA: tan_alpha no longer reads get_TB / get_MA0 / get_MZ")
+        return
+    TB, MA, MZ = to_rat(tb), to_rat(ma), to_rat(mz)
+    one = Rat(Poly.const(1))
+    T = (Rat(Poly.const(2)) * TB / (one - TB * TB)) * (MA * MA + MZ * MZ) / (MA * MA - MZ * MZ)
+
+    def reduce_sqrt(r):
+        """replace even powers of sqrt atoms by their radicands in the numerator"""
+        n = r.n
+        for _ in range(6):
+            sq = [a for a in n.atoms() if isinstance(a, tuple) and a and a[0] == "call" and str(a[1]).split("::")[-1] == "sqrt"]
+            sq = [a for a in sq if n.degree_in(a) >= 2]
+            if not sq:
+                break
+            a = sq[0]
+            X = to_rat(a[2][0])
+            acc = Rat(Poly())
+            for e in range(n.degree_in(a) + 1):
+                c = n.coeff_of(a, e)
+                if c.is_zero():
+                    continue
+                term = Rat(c)
+                for _k in range(e // 2):
+                    term = term * X
+                if e % 2:
+                    term = term * Rat(Poly.atom(a))
+                acc = acc + term
+            r = acc / Rat(r.d)
+            n = r.n
+        return r
+
+    lv = leaves(hoist_ites(v))
+    for fa, val in lv:
+        inst = "tan_alpha branch [%s]" % ("; ".join(("" if pol else "NOT ") + show(c)[:60] for c, pol in fa) or "generic")
+        try:
+            t = to_rat(val)
+            res = reduce_sqrt((t + one / T) * (t + one / T) - one / (T * T) - one)
+        except NotPolynomial as ex:
+            R.soft_broken("TA: %s: %s" % (inst, ex))
+            continue
+        if res.n.is_zero():
+            # which root: if the value is -1/T -+ sqrt(1/T^2 + 1) literally, the sign in front of the root must be minus
+            r2 = t + one / T
+            sq = [a for a in r2.n.atoms() if isinstance(a, tuple) and a and a[0] == "call" and str(a[1]).split("::")[-1] == "sqrt"]
+            if len(sq) == 1 and r2.n.degree_in(sq[0]) == 1:
+                X = to_rat(sq[0][2][0])
+                if (X - one / (T * T) - one).n.is_zero():
+                    S = Rat(Poly.atom(sq[0]))
+                    if (r2 - S).n.is_zero():
+                        R.fail("TA", inst, F.loc(f), "tan_alpha returns the positive root -1/T + sqrt(1/T^2 + 1); the light CP-even "
+                               "Higgs of the MSSM has alpha in (-pi/2, 0), i.e. the negative root", key="TA|root")
+                        continue
+            R.ok("TA", inst, F.loc(f), detail="identity")
+            continue
+        # a shortcut branch: c * a < b  (a/b small)
+        small = None
+        for c, pol in fa:
+            if isinstance(c, tuple) and len(c) == 4 and c[0] == "cmp" and c[1] in ("<", "<=", ">", ">=") and pol:
+                l, r_ = (c[2], c[3]) if c[1] in ("<", "<=") else (c[3], c[2])
+                if isinstance(l, tuple) and l[0] == "*" and any(isinstance(q, tuple) and q[0] == "num" and abs(float(q[1])) > 1 for q in (l[1], l[2])):
+                    a_ = l[2] if (isinstance(l[1], tuple) and l[1][0] == "num") else l[1]
+                    small = a_
+        if small is not None:
+            try:
+                sa = [a for a in to_rat(small).n.atoms()]
+                lim = res
+                for a in sa:
+                    lim = Rat(lim.n.subs({a: Poly()}), lim.d.subs({a: Poly()}))
+                lim = reduce_sqrt(lim)
+                if not lim.d.is_zero() and lim.n.is_zero():
+                    R.ok("TA", inst, F.loc(f), detail="identity in the limit %s -> 0" % show(small))
+                    continue
+            except NotPolynomial:
+                pass
+        R.fail("TA", inst, F.loc(f), "the returned value %s does not satisfy tan(2 alpha) = tan(2 beta) (MA^2 + MZ^2)/(MA^2 - MZ^2)%s: "
+               "the CP-even mixing angle of this branch is not the MSSM tree-level one" % (show(val)[:80], " even in the limit of its guard" if small is not None else ""),
+               key="TA|%s" % (show(fa[0][0])[:40] if fa else "generic"))
